@@ -255,6 +255,10 @@ func checkC09(raw json.RawMessage) (ev.Result, error) {
 	if err != nil {
 		return ev.Result{}, ev.Inconclusivef("%v", err)
 	}
+	if s, strict := rr.StrictModeEntered(); strict {
+		return ev.Result{}, fmt.Errorf("thread %d entered seccomp strict mode (%s(%s) = %s in the trace): the helper never asks for that, so an operation of the library changed the thread's state destructively (child finished: %v)",
+			s.Tid, s.Name, strings.Join(s.Args, ", "), s.Ret, !rr.TimedOut)
+	}
 	if rr.TimedOut {
 		return ev.Result{}, ev.Inconclusivef("child timed out")
 	}
